@@ -1626,7 +1626,15 @@ func genTxBody(w *bufio.Writer, r *rand.Rand, n, nkeys int) {
 	for j := 0; j < n; j++ {
 		switch pick(r, 6, 2, 2) {
 		case 0:
-			fmt.Fprintf(w, "p %s %s\n", mkTok(genKey(r, nkeys)), genC03Val(r))
+			k := genKey(r, nkeys)
+			if c03BigOK && r.Intn(8) == 0 {
+				// the entry's log record is exactly one physical record, or one byte off: the
+				// place where the single-record and the fragmented form meet (a batch that fails
+				// there has already buffered its earlier entries)
+				fmt.Fprintf(w, "p %s @%d:%d\n", mkTok(k), wal.MaxRecordSize-13-4-len(k)+r.Intn(3)-1, r.Intn(1<<20))
+			} else {
+				fmt.Fprintf(w, "p %s %s\n", mkTok(k), genC03Val(r))
+			}
 		case 1:
 			fmt.Fprintf(w, "d %s\n", mkTok(genKey(r, nkeys)))
 		default:
